@@ -309,13 +309,17 @@ func (x *Explorer) Explore(run func(c *Ctx), visit func(c *Ctx) bool) ExploreSta
 	// alternative. (Storing a full prefix per alternative costs gigabytes on executions
 	// with thousands of choice points.) maxFrontier bounds it; beyond that the
 	// exploration is reported as capped.
+	type parentRec struct {
+		picks []int
+		live  int // alternatives of this execution still in the frontier
+	}
 	type node struct {
-		parent []int
+		parent *parentRec
 		i, alt int
 	}
-	const maxFrontier = 12_000_000
+	const maxFrontierBytes = 1200 << 20 // pick sequences + nodes held by the frontier
 	const maxCache = 3_000_000
-	frontier := 0
+	frontierBytes := 0
 	incompleteFrom := 1 << 30
 	levels := [][]node{{{alt: -1}}}
 	st.BoundCompleted = -1
@@ -356,12 +360,15 @@ func (x *Explorer) Explore(run func(c *Ctx), visit func(c *Ctx) bool) ExploreSta
 			q := levels[lvl]
 			nd := q[len(q)-1]
 			levels[lvl] = q[:len(q)-1]
-			frontier--
 			prefix := []int{}
 			if nd.alt >= 0 {
 				prefix = make([]int, nd.i+1)
-				copy(prefix, nd.parent[:nd.i])
+				copy(prefix, nd.parent.picks[:nd.i])
 				prefix[nd.i] = nd.alt
+				frontierBytes -= 32
+				if nd.parent.live--; nd.parent.live == 0 {
+					frontierBytes -= 8*len(nd.parent.picks) + 48
+				}
 			}
 			if (x.MaxExec > 0 && st.Executions >= x.MaxExec) || (x.Stop != nil && x.Stop()) {
 				st.Capped = true
@@ -389,7 +396,7 @@ func (x *Explorer) Explore(run func(c *Ctx), visit func(c *Ctx) bool) ExploreSta
 				break
 			}
 			var used cost
-			var picks []int
+			var par *parentRec
 			for i, ch := range c.Trace {
 				if i >= len(prefix) {
 					st.PerKind[ch.Kind]++
@@ -399,22 +406,24 @@ func (x *Explorer) Explore(run func(c *Ctx), visit func(c *Ctx) bool) ExploreSta
 						if !x.Bounds.allows(nc) {
 							break
 						}
-						if frontier >= maxFrontier {
+						if frontierBytes >= maxFrontierBytes {
 							st.Capped = true
 							if t := nc.total(); t < incompleteFrom {
 								incompleteFrom = t // this and all later levels lose alternatives
 							}
 							break
 						}
-						if picks == nil {
-							picks = c.Picks()
+						if par == nil {
+							par = &parentRec{picks: c.Picks()}
+							frontierBytes += 8*len(par.picks) + 48
 						}
 						t := nc.total()
 						for len(levels) <= t {
 							levels = append(levels, nil)
 						}
-						levels[t] = append(levels[t], node{picks, i, alt})
-						frontier++
+						levels[t] = append(levels[t], node{par, i, alt})
+						par.live++
+						frontierBytes += 32
 						st.States++
 						st.Transitions++
 					}
